@@ -641,7 +641,7 @@ int sgetbs(STREAM* f, char* str, int size)
 		/* LCOV_EXCL_STOP */
 	}
 
-	if (len + 1 > (uint32_t)size) {
+	if (len >= (uint32_t)size) {
 		/* LCOV_EXCL_START */
 		return -1;
 		/* LCOV_EXCL_STOP */
